@@ -98,3 +98,37 @@ func Call(f func()) (msg string, panicked bool) {
 	f()
 	return "", false
 }
+
+// Pool keeps one Region per size class so that small buffers use small mappings
+// (mprotect cost is per page; most generated buffers fit in one or two pages).
+type Pool struct {
+	regions map[int]*Region
+}
+
+var poolClasses = []int{pageSize, 2 * pageSize, 16 * pageSize, 272 * pageSize}
+
+// For returns a region whose data area holds at least size bytes.
+func (p *Pool) For(size int) *Region {
+	if p.regions == nil {
+		p.regions = map[int]*Region{}
+	}
+	cls := -1
+	for _, c := range poolClasses {
+		if size <= c {
+			cls = c
+			break
+		}
+	}
+	if cls < 0 {
+		cls = (size + pageSize - 1) / pageSize * pageSize
+	}
+	if r := p.regions[cls]; r != nil {
+		return r
+	}
+	r, err := New(cls)
+	if err != nil {
+		panic(err)
+	}
+	p.regions[cls] = r
+	return r
+}
